@@ -86,10 +86,12 @@ func c11Run(r *vt.Run, c c11Case) (canon string) {
 				}
 			}
 		})
+		failBase := 0
 		for step, ev := range c.Hist {
 			np := len(w.Panics)
 			if step == len(c.Hist)-1 {
 				lastBase := len(w.Trace)
+				failBase = lastBase
 				defer func() { c11LastEventPoints = append([]sim.Point(nil), w.Trace[lastBase:]...) }()
 				if c.FailAt != nil {
 					w.Plan[lastBase+*c.FailAt] = sim.Deviation{Kind: sim.DevErr, Arg: c.Flavour}
@@ -128,6 +130,20 @@ func c11Run(r *vt.Run, c c11Case) (canon string) {
 					for _, x := range claim {
 						if s := w.Servers[x]; s.Up {
 							r.Count("trigger_b")
+							if c.FailAt != nil && step == len(c.Hist)-1 {
+								// with one failing call in this iteration the manager may not have FOUND the host
+								// (a failed read of its state): it is found next time. It was found if mysync
+								// re-pointed it; then it must be marked - afterwards it does not look like a master
+								// any more and nothing would mark it
+								if s.HasSource && !marked(x) {
+									what := "?"
+									if i := failBase + *c.FailAt; i < len(w.Trace) {
+										what = w.Trace[i].Kind + ":" + w.Trace[i].Op
+									}
+									violate("1-marked-when-claiming-master/after-one-failed-call@"+what, fmt.Sprintf("%s claimed to be master beside the recorded master %s, was re-pointed by the manager in an iteration with one failing call (%s) and is not marked", x, masterBefore, what))
+								}
+								continue
+							}
 							if !marked(x) {
 								violate("1-marked-when-claiming-master", fmt.Sprintf("%s claimed to be master beside the recorded master %s during a completed manager iteration but is not marked", x, masterBefore))
 							}
@@ -301,6 +317,11 @@ func checkC11(r *vt.Run) {
 		append(append([]string(nil), prefix...), "adv5", "mgrTick"),
 		append(append([]string(nil), prefix...), "h1Recovery"),
 		{"h1Dies", "mgrTick", "mgrTick"},
+		// the iteration that finds the former master claiming to be master beside the recorded one
+		// (re-pointing and marking it)
+		// the iteration that finds the cleanly switched-away former master claiming to be master beside
+		// the recorded one (its replication configuration was reset by hand): re-pointing and marking
+		{"fileTo2", "mgrTick", "h1LosesReplConfig", "mgrTick"},
 	} {
 		c11LastEventPoints = nil
 		c11Run(r, c11Case{Hist: hist})
